@@ -29,6 +29,9 @@ def build(tier):
     import renders
     for (k, sh) in (("variable", dict(vtype="str")), ("variable", dict(vtype="list")), ("variable", dict(vtype="UNSET")), ("option", dict(default=True)), ("option", dict(default=False))):
         obs.append(renders.render_ob("C10.b", k, sh, (7, 0), 2, timeout=t))
+    # C10.c 'documented or not, at any position in a module': option()/set() steps under arbitrary open definition and class frames
+    import steps
+    obs += steps.step_obligations("C10.c", ["option", "set"], tier, 2, 1, symargs=True)
     if not quick:
         obs += [ob("option", ["quo"], L, False, timeout=t), ob("set", ["quo"], 4, timeout=2400), ob("set", ["unq_esc"], 4, timeout=2400)]
     return dict(obligations=obs, explanation="x", assumptions=[])
